@@ -14,6 +14,24 @@ COMMON_NOTE = (
 )
 TECH = "symbolic execution of the real Python on z3-backed proxy scalars (decision-tree re-execution), exact parametric-LP stub, SMT (QF_LRA) obligations per path, counterexamples replayed on the unshimmed code"
 CHECKS = {
+    "C07": {
+        "text": "Symbolic execution of PolyhedralTermList.simplify / reduce_polytope / termlist_to_polytope / polytope_to_termlist and of the contract constructor and IoContract.simplify with symbolic constants on patterns with planted duplicates, scalings, positive combinations and context-implied terms. Per path: result is a selection of the input (constants provably equal), equivalent in context both ways, no kept term droppable with margin (decided quantifier-free through the exact projection), ValueError only on an infeasible system.",
+        "design_ref": "DESIGN.md section 8 C07",
+        "note": COMMON_NOTE,
+        "technique": TECH,
+    },
+    "C08": {
+        "text": "Symbolic execution of IoContract.merge (and the simplifying constructor) for enumerated interface overlaps and coefficient patterns, constants symbolic and optionally shared between the operands; per path the interface is the union and four QF_LRA queries decide the two equivalences (assumptions, assumptions-and-guarantees) for all constants and behaviours; both call orders are run on the same path and compared.",
+        "design_ref": "DESIGN.md section 8 C08",
+        "note": COMMON_NOTE,
+        "technique": TECH,
+    },
+    "C15": {
+        "text": "Symbolic execution of compose and merge on pairs whose guarantees overlap on interface variables (identical, scaled, mutually implied rows; constants free so that the mutual-implication point is found by the solver). Per returning path one query per interface-level operand guarantee decides that it is implied by the result; for unconnected pairs four queries decide exactness.",
+        "design_ref": "DESIGN.md section 8 C15",
+        "note": COMMON_NOTE,
+        "technique": TECH,
+    },
     "C02": {
         "text": "Bounded symbolic execution of the real quotient_tactics (assumption relaxation with/without the divisor's guarantees, two guarantee refinements, refines test, deepcopy, constructor) for enumerated quotient wirings, additional_inputs subsets, options and coefficient patterns with symbolic constants; one QF_LRA query per returning path decides that divisor plus quotient meet the dividend. Both outcomes of the 'dividend assumptions refine divisor assumptions' test are reached and counted.",
         "design_ref": "DESIGN.md section 8 C02",
